@@ -36,8 +36,19 @@ def rand_name(rnd):
     k = rnd.random()
     if k < 0.3:
         return "".join(rnd.choice(ALPHA) for _ in range(rnd.randint(0, 7)))
-    pool = "'/ aZ\\\"\t\né日\U0001F600\u0000​'/''"
+    pool = "'/ aAZ\\\"\t\néÉ日\U0001F600\u0000​'/''"
     return "".join(rnd.choice(pool) for _ in range(rnd.randint(0, 10)))
+
+
+def near_alias(rnd, name):
+    """a DIFFERENT string that a normalising comparison would identify with `name`: other letter case, Unicode normal form,
+    surrounding white space, a trailing NUL, full-width letters"""
+    import unicodedata
+    base = name or "t"
+    cands = [base.lower(), base.upper(), base.swapcase(), base + " ", " " + base, base.strip(), unicodedata.normalize("NFD", base), unicodedata.normalize("NFC", base),
+             base + "\u0000", base.replace("a", "\uff41"), base.casefold(), base + "\u200b"]
+    cands = [c for c in cands if c != name]
+    return rnd.choice(cands) if cands else name + " "
 
 
 def real_scan(common, s):
@@ -119,7 +130,12 @@ def run(ctx):
         k = rnd.randint(1, 4)
         objs, seen = [], set()
         for _ in range(k):
-            g, c = rnd.choice(names[:40] + [rand_name(rnd)]), rnd.choice(names[:40] + [rand_name(rnd)])
+            g, c = rnd.choice(names[:40] + [rand_name(rnd)]), rnd.choice(names[:40] + [rand_name(rnd), "Temp", "é'x", "straße"])
+            if objs and rnd.random() < 0.4:
+                # a near-alias of an object already in this segment: same group and a channel name differing only in case / normal
+                # form / white space, or the same for the group
+                g0, c0 = rnd.choice(objs)
+                g, c = (g0, near_alias(rnd, c0)) if rnd.random() < 0.6 else (near_alias(rnd, g0), c0)
             if (g, c) in seen:
                 continue
             try:
